@@ -672,7 +672,23 @@ func (c *Collection) FindOneAndDelete(ctx context.Context, filter interface{}, o
 
 	// delete documents
 	res, err := useTransaction(ctx, c.engine, true, func(txn *Transaction) (interface{}, error) {
-		return txn.Delete(c.handle, query, sort, 0, 1)
+		// remember the state of the transaction
+		catalog, dirty := txn.Catalog(), txn.Dirty()
+
+		res, err := txn.Delete(c.handle, query, sort, 0, 1)
+		if err != nil {
+			return nil, err
+		}
+
+		// reject an invalid projection while the write can still be undone
+		// (the transaction may be a session transaction that lives on)
+		err = checkProjection(projection, res)
+		if err != nil {
+			txn.reset(catalog, dirty)
+			return nil, err
+		}
+
+		return res, nil
 	})
 	if err != nil {
 		return &SingleResult{err: err}
@@ -772,7 +788,23 @@ func (c *Collection) FindOneAndReplace(ctx context.Context, filter, replacement 
 
 	// insert document
 	res, err := useTransaction(ctx, c.engine, true, func(txn *Transaction) (interface{}, error) {
-		return txn.Replace(c.handle, query, sort, repl, upsert)
+		// remember the state of the transaction
+		catalog, dirty := txn.Catalog(), txn.Dirty()
+
+		res, err := txn.Replace(c.handle, query, sort, repl, upsert)
+		if err != nil {
+			return nil, err
+		}
+
+		// reject an invalid projection while the write can still be undone
+		// (the transaction may be a session transaction that lives on)
+		err = checkProjection(projection, res)
+		if err != nil {
+			txn.reset(catalog, dirty)
+			return nil, err
+		}
+
+		return res, nil
 	})
 	if err != nil {
 		return &SingleResult{err: err}
@@ -885,7 +917,23 @@ func (c *Collection) FindOneAndUpdate(ctx context.Context, filter, update interf
 
 	// update documents
 	res, err := useTransaction(ctx, c.engine, true, func(txn *Transaction) (interface{}, error) {
-		return txn.Update(c.handle, query, sort, upd, 0, 1, upsert, arrayFilters)
+		// remember the state of the transaction
+		catalog, dirty := txn.Catalog(), txn.Dirty()
+
+		res, err := txn.Update(c.handle, query, sort, upd, 0, 1, upsert, arrayFilters)
+		if err != nil {
+			return nil, err
+		}
+
+		// reject an invalid projection while the write can still be undone
+		// (the transaction may be a session transaction that lives on)
+		err = checkProjection(projection, res)
+		if err != nil {
+			txn.reset(catalog, dirty)
+			return nil, err
+		}
+
+		return res, nil
 	})
 	if err != nil {
 		return &SingleResult{err: err}
